@@ -25,6 +25,8 @@ func main() {
 		cmdCred(os.Args[2:])
 	case "auth":
 		cmdAuth(os.Args[2:])
+	case "schema":
+		cmdSchema(os.Args[2:])
 	case "tq":
 		cmdTQ(os.Args[2:])
 	default:
